@@ -26,7 +26,7 @@ from checks import concshared as cs
 
 PID = "C06"
 OBLIGATION_FILES = ["Conc/SkelObligationsC06.v"]
-OBLIGATIONS = ["skeleton_conforms", "lock_sections_ranked", "attribution_closed"]
+OBLIGATIONS = ["skeleton_conforms", "closable_senders_covered", "lock_sections_ranked", "attribution_closed"]
 
 WHAT = {
     "panic:send-on-closed-channel@router.(*dealer).syncCall.func1":
@@ -186,7 +186,7 @@ def _replay(path):
         print("-- no history recorded (broken obligation without failing input); re-evaluating the obligations")
         gen_ok, msg = cs.gen()
         rep = cs.skeleton_report() if gen_ok else dict(ok=False, error=msg, obligations={})
-        print(json.dumps({k: rep.get(k) for k in ("obligations", "nonconforming", "detail", "error")}, indent=1))
+        print(json.dumps({k: rep.get(k) for k in ("obligations", "nonconforming", "uncovered_senders", "detail", "error")}, indent=1))
         bad = (not rep.get("ok")) or any(not rep["obligations"].get(o, False) for o in OBLIGATIONS)
         print("VERDICT: %s" % ("still broken" if bad else "obligations hold now"))
         return 1 if bad else 0
